@@ -85,9 +85,13 @@ def gen_lists(rng):
             # two scheduling styles: fine-grained random stepping, and "start a validation at a random
             # bytecode boundary of the refresh and let it run almost undisturbed" (few pre-emptions,
             # which is how rare windows are usually hit)
+            # and a third: every validation placed at a boundary drawn uniformly over the refresh
             "weights": ({"main": rng.choice([1.0, 3.0, 8.0]), "start": rng.choice([0.05, 0.2, 1.0]),
                          "val": rng.choice([0.3, 1.0, 3.0])} if rng.random() < 0.35 else
-                        {"main": 1.0, "start": rng.choice([0.01, 0.02, 0.04]), "val": rng.choice([20.0, 60.0])}),
+                        {"main": 1.0, "start": rng.choice([0.01, 0.02, 0.04]), "val": rng.choice([20.0, 60.0])}
+                        if rng.random() < 0.45 else
+                        {"main": 1.0, "start": 0.0, "val": 1.0, "at": [rng.randint(1, 260) for _ in range(3)]}
+                        if rng.random() < 0.6 else {"main": 1.0, "start": 0.0, "val": 1.0, "sweep": True}),
             "step_cap": 60000}
 
 
@@ -125,8 +129,12 @@ def run_lists(case, sim):
             await w.settle()
             pubs = [evgen.AUTHORS[k].pub if k < 3 else evgen.KEYS[4].pub if False else "ee" * 32 for k in case["validators"]]
             vals = [lw.Validator(i, pk, dl.is_pubkey_allowed, Config) for i, pk in enumerate(pubs)]
+            if case["weights"].get("sweep"):
+                vals = []
+                pubs = sorted(set(pubs) | {"ee" * 32})
             with lw.Interleaver(sim, dl.ListBuilder.run_once.__code__, dl.is_pubkey_allowed.__code__,
-                                vals, case["weights"]) as il:
+                                vals, case["weights"],
+                                factory=lambda i: lw.Validator(i, pubs[i % len(pubs)], dl.is_pubkey_allowed, Config)) as il:
                 await lb.run_once()
                 il.finish()
             after = {b.hex() for b in dl.ALLOWED_PUBKEYS}
@@ -180,7 +188,7 @@ def run_lists(case, sim):
     probes["validations_overlapping_refresh"] = in_window
     sim.note("lists", "%s %s" % (out["boundaries"], out["switches"]))
     return {"violations": viol[:1], "nontrivial": in_window > 0, "probes": dict(probes),
-            "signature": qcommon.h16((backend, case["allow0"], case["allow1"], [(v[0][:6], v[1], v[2], v[3]) for v in out["vals"]]))}
+            "signature": qcommon.h16((backend, case["allow0"], case["allow1"], [(v[0][:6], v[1], v[2], v[3]) for v in out["vals"]][:12]))}
 
 
 def gen_race(rng, knobs):
